@@ -438,6 +438,10 @@ pub enum WriterCfg {
     Vec,
     /// monitored rope of fixed-size pages
     Paged(usize),
+    /// monitored flat vector that, on its n-th call, runs a caller-supplied
+    /// action (used for a re-entrant encode of the same value: what a
+    /// callback, a signal handler or a logging writer may do)
+    Reentrant(u8),
 }
 
 impl WriterCfg {
@@ -446,6 +450,7 @@ impl WriterCfg {
             WriterCfg::Real => "real",
             WriterCfg::Vec => "vec",
             WriterCfg::Paged(_) => "paged",
+            WriterCfg::Reentrant(_) => "reentrant",
         }
     }
 }
@@ -467,6 +472,9 @@ pub struct SimWriter {
     pub patches: Vec<Patch>,
     pub calls: u64,
     pub straddles: u64,
+    /// (call index within the current value, action)
+    pub reentry: Option<(u64, Box<dyn FnMut()>)>,
+    calls_in_value: u64,
 }
 
 impl SimWriter {
@@ -487,6 +495,8 @@ impl SimWriter {
             patches: Vec::new(),
             calls: 0,
             straddles: 0,
+            reentry: None,
+            calls_in_value: 0,
         };
         w.append(prefix);
         w.calls = 0;
@@ -497,6 +507,16 @@ impl SimWriter {
     /// Mark the start of the next top-level encode call.
     pub fn begin_value(&mut self) {
         self.value_start = self.cur_len();
+        self.calls_in_value = 0;
+    }
+
+    fn tick(&mut self) {
+        self.calls_in_value += 1;
+        if let Some((at, action)) = self.reentry.as_mut() {
+            if *at == self.calls_in_value {
+                action();
+            }
+        }
     }
 
     fn cur_len(&self) -> usize {
@@ -508,6 +528,7 @@ impl SimWriter {
 
     fn append(&mut self, bytes: &[u8]) {
         self.calls += 1;
+        self.tick();
         if let Some(r) = self.real.as_mut() {
             r.write_bytes(bytes);
             return;
@@ -560,6 +581,7 @@ impl Writer for SimWriter {
     }
     fn write_bytes_at(&mut self, bytes: &[u8], offset: usize) {
         self.calls += 1;
+        self.tick();
         let len = self.cur_len();
         self.patches.push(Patch {
             offset,
